@@ -97,7 +97,7 @@ P = {
  'C09': ('proof', 'Proved: the boxes the shortcut looks at are exactly min/max over edge start points (every instance), and when they are '
          'disjoint the call returns the trivial combination, which is the named region at every point of the plane (exact instance, '
          'C09_shortcut_returns_named_region: regions of rings inside disjoint boxes are disjoint). Per run: adding a far part changes the '
-         'result only by that part (regions by the verified checker; on the exact class also the canonical boundaries - edges grouped by supporting line, not rings: a hole touching its exterior in a vertex is a ring of its own in the shortcut result and threaded into the exterior ring by the sweep, the same region by C09_threaded_hole_same_region; an edge cut at a touching vertex keeps every crossing count, C09_cut_edge_same_crossings); operands straddling '
+         'result only by that part (regions by the verified checker; on the exact class also the canonical boundaries - edges grouped by supporting line, not rings: a hole touching its exterior in a vertex is a ring of its own in the shortcut result and threaded into the exterior ring by the sweep, the same region by C09_threaded_hole_same_region; an edge cut at a touching vertex keeps every crossing count, C09_cut_edge_same_crossings, C09_extra_vertex_on_an_edge_same_region); operands straddling '
          'each other\'s boxes exercise the shortcut and early-exit conditions.', '§7 C09', 'Coq: bounding-box and shortcut theorems; verified scene checker'),
  'C10': ('proof', 'The f32 instantiation has its own bit-exact model instance (NB32) and goes through the same correspondence; per run the f32 '
          'result is the named region (verified checker, tolerance 1e-4 x magnitude when rounded) and equals the f64 result coordinate for '
